@@ -534,6 +534,9 @@ def run(chk, replay=None):
     chk.count("pair_law_instances", nlaw)
     chk.count("triple_law_instances", ntri)
 
+    # smallest failing inputs first (finish() reports the first five)
+    chk.violations.sort(key=lambda v: (v[2], 0 if isinstance(v[1], dict) and 'law' in v[1] else 1,
+                                       len(json.dumps(v[1], default=str))))
     if broken and not [v for v in chk.violations if not v[2]]:
         for b in broken[:4]:
             chk.violation(b, {"broken": b, "searched": "%d requests (table cross products, structured universe, "
